@@ -111,9 +111,10 @@ pub(super) struct State {
     /// access to the cell.
     is_mutating: bool,
 
-    /// Last time the atomic was accessed. This tracks the dependent access for
-    /// the DPOR algorithm.
-    last_access: Option<Access>,
+    /// Most recent accesses to the atomic, one per thread at most: an access
+    /// is dropped once a later access that it happens-before (in DPOR order)
+    /// is recorded. A store / rmw is dependent with all of them.
+    last_access: Vec<Access>,
 
     /// Last time the atomic was accessed for a store or rmw operation.
     last_non_load_access: Option<Access>,
@@ -411,7 +412,7 @@ impl State {
             unsync_mut_at: VersionVec::new(),
             unsync_mut_locations: LocationSet::new(),
             is_mutating: false,
-            last_access: None,
+            last_access: Vec::new(),
             last_non_load_access: None,
             stores: Default::default(),
             cnt: 0,
@@ -825,18 +826,35 @@ impl State {
         one.iter_mut().chain(two.iter_mut())
     }
 
-    /// Returns the last dependent access
-    pub(super) fn last_dependent_access(&self, action: Action) -> Option<&Access> {
+    /// Calls `f` with every earlier access the given action is dependent with
+    /// and that may be concurrent with it.
+    ///
+    /// Loads only depend on stores / rmws, which are totally ordered among
+    /// themselves, so the last one is enough. A store / rmw also depends on
+    /// every load; loads of different threads are not ordered with each other,
+    /// so the last access of every thread has to be considered.
+    pub(super) fn for_each_dependent_access(&self, action: Action, mut f: impl FnMut(&Access)) {
         match action {
-            Action::Load => self.last_non_load_access.as_ref(),
-            _ => self.last_access.as_ref(),
+            Action::Load => {
+                if let Some(access) = self.last_non_load_access.as_ref() {
+                    f(access);
+                }
+            }
+            _ => {
+                for access in &self.last_access {
+                    f(access);
+                }
+            }
         }
     }
 
     /// Sets the last dependent access
     pub(super) fn set_last_access(&mut self, action: Action, path_id: usize, version: &VersionVec) {
-        // Always set `last_access`
-        Access::set_or_create(&mut self.last_access, path_id, version);
+        // Always track the access. Earlier accesses that happen-before it
+        // (e.g. those of the same thread) are subsumed by it.
+        self.last_access
+            .retain(|access| !access.happens_before(version));
+        self.last_access.push(Access::new(path_id, version));
 
         match action {
             Action::Load => {}
